@@ -133,6 +133,9 @@ func c08Populate(st reflect.Type, k int) reflect.Value {
 				t0 := time.Date(2020, 1, 1, 0, 0, 0, 0, time.UTC).Add(time.Duration(n) * time.Hour)
 				fv.Set(reflect.ValueOf(ap.ItemCollection{&ap.Object{ID: a, Type: ap.NoteType, Published: t0}, &ap.Object{ID: b, Type: ap.NoteType, Published: t0.Add(time.Hour)},
 					&ap.Object{ID: a + "/c", Type: ap.NoteType, Published: t0.Add(2 * time.Hour)}}))
+			} else if k%4 == 2 {
+				// a member held twice (a boost listed again, an addressee named twice): a view shows the list as it is
+				fv.Set(reflect.ValueOf(ap.ItemCollection{a, b, a, &ap.Object{ID: b, Type: ap.NoteType}}))
 			} else {
 				fv.Set(reflect.ValueOf(ap.ItemCollection{a, b}))
 			}
